@@ -3,6 +3,8 @@ import NanoVerif.Proofs.AffineLemmas
 import NanoVerif.Props.C16
 import NanoVerif.Proofs.PaintedLayers
 import NanoVerif.Proofs.TrColorGlyph
+import NanoVerif.Model.GradientParse
+import NanoVerif.Proofs.ColrSvg
 /-
 C01 — COLRv1 glyph paints the same picture as its source SVG.
 What is proved here (for all inputs): the placement affine is the one the property states
@@ -85,6 +87,74 @@ example : paintedLayersFails [.group (1/2) false [.shape 0, .shape 1]] = true :=
 /-- non-vacuity: a nested document -/
 example : paintedLayersIs [.shape 0, .group (1/2) true [.shape 1, .group (1/4) true [.shape 2, .shape 3]], .shape 4]
     [.glyph 0, .composite (1/2) [.glyph 1, .composite (1/4) [.glyph 2, .glyph 3]], .glyph 4] = true := by decide +kernel
+
+/-! ### C01 (gradients): SVG gradient → COLR gradient (`_parse_linear_gradient`, `_parse_radial_gradient`, `_get_gradient_transform`) -/
+
+/-- the COLR three-point gradient built from SVG's gradient vector (`p2 = p0 + perpendicular(p1 − p0)`) has, in gradient space, exactly
+SVG's offset along the vector — whichever way `perpendicular` turns -/
+theorem svgLinear_param (p0 p1 q : Pt) :
+    linParam (svgLinear p0 p1) q = svgLinearOffset p0 p1 q := by
+  simp only [linParam, svgLinear, svgLinearOffset, cross, perp]
+  have e1 : (q.x - p0.x) * (p0.y + (p1.x - p0.x) - p0.y) - (q.y - p0.y) * (p0.x + -(p1.y - p0.y) - p0.x)
+      = (q.x - p0.x) * (p1.x - p0.x) + (q.y - p0.y) * (p1.y - p0.y) := by ring
+  have e2 : (p1.x - p0.x) * (p0.y + (p1.x - p0.x) - p0.y) - (p1.y - p0.y) * (p0.x + -(p1.y - p0.y) - p0.x)
+      = (p1.x - p0.x) ^ 2 + (p1.y - p0.y) ^ 2 := by ring
+  rw [e1, e2]
+
+/-- **C01 (linear gradients)** whatever invertible transform `t` takes gradient space to font space: at the font-space image of a gradient-space
+point `q`, the COLR gradient `_parse_linear_gradient` builds has the colour-line parameter SVG assigns to `q` — "no gradient geometry is displaced". -/
+theorem linear_gradient_preserved (p0 p1 : Pt) (t : Aff) (ht : t.det ≠ 0) (q : Pt) :
+    linParam (parseLinear p0 p1 t) (t.app q) = svgLinearOffset p0 p1 q := by
+  rw [parseLinear, C16.linParam_affine t ht, svgLinear_param p0 p1 q]
+
+/-- the unit square is stretched over the shape's own bounding box -/
+theorem bbox_units (b : Rect) (hw : b.w ≠ 0) (hh : b.h ≠ 0) (q : Pt) :
+    (Aff.rectToRect ⟨0, 0, 1, 1⟩ b).app q = ⟨b.x + q.x * b.w, b.y + q.y * b.h⟩ := by
+  simp [Aff.rectToRect, hw, hh, Aff.app]
+  constructor <;> ring
+
+/-- an optional step of the chain -/
+def optApp (o : Option Aff) (p : Pt) : Pt :=
+  match o with
+  | some g => g.app p
+  | none => p
+
+/-- **C01 (gradient space → font space)** `_get_gradient_transform` composes in SVG's order: `gradientTransform` first, then (for bounding-box
+units) the unit square onto the shape's box, then the viewBox → font placement (with the user transform) — for every combination of the two
+optional steps -/
+theorem gradient_transform_order (vb : Rect) (asc desc width : Q) (user : Aff) (bbox : Option Rect) (gt : Option Aff) (t V : Aff)
+    (hV : mapViewboxToFontSpace vb asc desc width user = .ok V)
+    (h : getGradientTransform vb asc desc width user bbox gt = .ok t) (q : Pt) :
+    t.app q = V.app (optApp (bbox.map (Aff.rectToRect ⟨0, 0, 1, 1⟩)) (optApp gt q)) := by
+  unfold getGradientTransform at h
+  rw [hV] at h
+  have ht := (Except.ok.inj h).symm
+  cases bbox with
+  | none =>
+    cases gt with
+    | none => simp only at ht; subst ht; rfl
+    | some g => simp only at ht; subst ht; simp only [optApp, Option.map_none, Aff.composeLtr2, NanoVerif.C06.app_mul]
+  | some b =>
+    cases gt with
+    | none => simp only at ht; subst ht; simp only [optApp, Option.map_some, Aff.composeLtr2, NanoVerif.C06.app_mul]
+    | some g => simp only at ht; subst ht; simp only [optApp, Option.map_some, Aff.composeLtr2, NanoVerif.C06.app_mul]
+
+/-- **C01 (radial gradients)** the COLR paint `PaintRadialGradient.apply_transform` builds — circles mapped by the similarity part `u`, wrapped
+in a transform paint for the remainder `r` — shows at every font-space point `x` what the SVG circles show at the gradient-space point `t⁻¹ x`
+(`compose_ltr((u, r)) = t`; the split itself is `decomposeUniform`, C16) -/
+theorem radial_gradient_preserved {α} (E : PixAlg α) (g : RadGrad) (l : Nat) (t u r : Aff) (hcomp : Aff.composeLtr [u, r] = t)
+    (hb : u.b = 0) (hc : u.c = 0) (hd : u.d = u.a ∨ u.d = -u.a) (hs : 0 < u.a)
+    (hu : C06.Invertible u) (hr : C06.Invertible r) (ht : C06.Invertible t) (x : Pt) :
+    colrRender E (.transform r (.rad (g.applyUniform u) l)) x = E.radPix l (g.sol ((t.inverseEps eps).app x)) := by
+  simp only [colrRender]
+  congr 1
+  funext τ
+  exact propext (C13.radial_split_sound g t u r hcomp hb hc hd hs hu hr ht x τ)
+
+/-! non-vacuity: a bounding-box gradient with a rotation, on the default metrics -/
+example : getGradientTransform ⟨0, 0, 100, 100⟩ 950 (-250) 1275 Aff.id (some ⟨10, 20, 40, 30⟩) (some ⟨0, 1, -1, 0, 1, 0⟩)
+    = .ok ⟨0, -360, -480, 0, 1275 / 2, 710⟩ := by decide +kernel
+example : svgLinearOffset ⟨0, 0⟩ ⟨1, 0⟩ ⟨1/4, 7⟩ = 1/4 := by decide +kernel
 
 /-! non-vacuity -/
 example : mapViewboxToFontSpace ⟨0, 0, 100, 100⟩ 950 (-250) 1275 Aff.id = .ok ⟨12, 0, 0, -12, 75/2, 950⟩ := by decide +kernel
